@@ -244,7 +244,7 @@ pub fn run(ctx: &mut Ctx) {
         return;
     }
     let mut case: u64 = 0;
-    let k = ctx.n(7, 9);
+    let k = if ctx.is_fuzz() { 0 } else { ctx.n(7, 9) };
     let mut space = 0u64;
     for cap in 1..=5usize {
         for queue in [true, false] {
